@@ -193,3 +193,39 @@ Theorem C12_msg_rt_stream_closed : forall s name ty seq rest,
   exists st', sr_message_begin (new_reader s) = (st', Ok (name, (ty mod 65536)%Z, seq)) /\
               r_readlen st' = len (enc_msg name ty seq).
 Proof. exact sr_msg_rt_closed. Qed.
+
+(* ---- the envelope theorems for the definitions regenerated from the Go source on every run
+        (Gen/Funcs.v by tools/gotrans; equivalences in Proofs/GenEquiv.v) ---- *)
+From GV Require Import Lib.GoSem Gen.Funcs Proofs.GenCorollariesMsg.
+
+Theorem C12_gen_append_writer : forall buf name ty seq,
+  g_thrift_AppendMessageBegin buf name ty seq = Ok (buf ++ enc_msg name ty seq).
+Proof. exact g_msg_append. Qed.
+
+Theorem C12_gen_length : forall name ty seq,
+  len name < two31 -> g_thrift_MessageBeginLength name = Ok (Z.of_N (len (enc_msg name ty seq))).
+Proof. exact g_msg_length. Qed.
+
+Theorem C12_gen_inplace_writer : forall buf name ty seq,
+  len name < two31 -> len (enc_msg name ty seq) <= len buf ->
+  g_thrift_WriteMessageBegin buf name ty seq =
+    Ok (enc_msg name ty seq ++ drop (len (enc_msg name ty seq)) buf, Z.of_N (len (enc_msg name ty seq))).
+Proof. exact g_msg_inplace. Qed.
+
+Theorem C12_gen_msg_rt_buffer : forall en name ty seq rest,
+  len name < two31 -> in_signed 32 seq -> wf name -> wf rest ->
+  g_thrift_ReadMessageBegin en (enc_msg name ty seq ++ rest) =
+    Ok (name, (ty mod 65536)%Z, seq, Z.of_N (len (enc_msg name ty seq)), gnil).
+Proof. exact g_msg_rt_buffer. Qed.
+
+Theorem C12_gen_bad_version : forall en buf,
+  wf buf -> 4 <= len buf -> N.land (unbe (take 4 buf)) 4294901760 <> 2147549184 ->
+  exists x, g_thrift_ReadMessageBegin en buf = Ok (x, Some e_bad_version).
+Proof. exact g_msg_bad_version. Qed.
+
+Theorem C12_gen_reader_total : forall en b, wf b -> safe (g_thrift_ReadMessageBegin en b).
+Proof. exact g_msg_reader_total. Qed.
+
+Theorem C12_gen_reader_bounded : forall en b name ty seq n,
+  wf b -> g_thrift_ReadMessageBegin en b = Ok (name, ty, seq, n, gnil) -> (0 <= n <= glen b)%Z.
+Proof. exact g_msg_reader_bounded. Qed.
